@@ -3,6 +3,7 @@ import random
 import vf
 import ddgen
 from checks import ddcommon
+from checks import alloccommon
 
 META = {
     "title": "exact reference counts and garbage collection",
@@ -12,6 +13,11 @@ META = {
     "level_text": "Theorems (coq/Props/C05.v): rc_exact_b_spec (the audit is exactly the property's counting equation), no_dead_b_spec and no_dead_reachable (on a well-formed table with exact counts, 'no node with count 0' means every stored node is reachable from a live handle, i.e. a collection left exactly the referenced nodes). Tie to the code: after every step of every history the extracted audit is evaluated on the lifted manager (for ZBDD the manager's own tautology chain is included as owner); after each gc() no unreferenced node may remain and every handle must denote the same value table as before; after dropping all handles and gc() the node count must be that of a fresh manager; a capacity probe fills a small manager with single-node functions that are all kept alive and requires the store to be completely full at the first out-of-memory, before and after a history (no slot is lost). MTBDD terminals (coq/Mgr/Terminals.v mirrors terminal_manager/dynamic.rs: get_edge, retain/release, iterator, gc, free chain; 36 theorems C05_term_*): the invariant (ids and values pairwise distinct, ids + free chain partition the slots, count = owner tokens + parent edges of stored inner nodes) holds in every state reachable under any interleaving of the threads' actions, collector steps and whole collections; gc removes exactly the terminals without owner and parent (any visiting order); get_edge returns the same id for a value until that terminal is collected, fails iff the value is absent and all slots are in use, and re-creates a collected value as a new entry; Manager::gc keeps a terminal iff a handle or a surviving inner node refers to it; after dropping all handles nothing is left and every slot is free; the iterator's retain and the consumer's drop_edge cancel. Tie: on every MTBDD snapshot the extracted invariant checker minv_b holds on the lifted state; for every GC the ids of the surviving terminals and inner nodes equal those of the extracted tcollect on the pre-state and gc()'s return value equals tcollect_count; for every constant() the extracted tstep(TGet) decides live terminal (the handle must be exactly it) / new slot (an id not in use) / out of memory; a terminal capacity probe (managers with 3..12 terminal slots) must find every slot in use at the first OutOfMemory, before and after a history with collections. Collector replay (package C02s; C05_sm_collect_keys / _count, C05_gc_snap_lift / _exact / _count / _example, coq/Mgr/ConcGcCount.v): the number of nodes a collection frees (Manager::gc's return value) is the number of stored nodes no owned edge reaches; for a snapshot lifted by of_snap (handles and the ZBDD chain edges as owners) that passes cinv_b, a node is stored after collect iff it was stored and is reachable (TableProofs.reachable) from a handle or chain edge, survivors keep level and children. Tie: every explicit gc() of the Boolean-kind histories is replayed by ocaml/c05s_main.ml on the extracted of_snap + ConcGc.collect: surviving ids, their levels / children / reference counts and gc()'s return value (exact when gc_count advanced by one, <= when the background collector ran first) must equal the model's; reach_own_b / garbage / idempotence cross-checked on tables up to 60 nodes. TDD (package TDDx, theorems C05_tdd_*): td_rc_b (DD/TddAudit.v) decides 'count = handles holding the node + (true, unknown, false) child slots of stored nodes pointing to it' on every snapshot and is the generic audit rc_exact_b on every TdOK table (as booleans: C05_tdd_rc_b_spec, _rc_b_exact, _rc_owners); exact counts + no zero count => every stored node is reachable from a handle, no handle => empty store (C05_tdd_no_dead_reachable, _dropall_empty); a collection of a TdOK table is TdOK, a sub-table, keeps every handle and the function of every surviving reference and leaves nothing unreachable (C05_tdd_collected_ok); gc() inside any history of the TDD manager state machine keeps the invariant, the handles and their functions and exactly the reachable nodes (C05_tdd_hist_gc, _hist_dropall_gc). Tie: kind tdd of h_dd: histories with clone / drop (also on another thread) / gc / reordering / add_vars: rc_first_bad AND td_rc_b after every op, no_dead_b after every gc, empty store after drop-all + gc, for every GC the surviving node ids must be exactly those the extracted gc_model keeps on the lifted pre-state (ocaml/tddh.ml); stores of 6..200 nodes framed by the ternary capacity probe T3FILL (single-node steps until out-of-memory: every slot in use, before and after a history with failing operations).",
     "level_note": "Trusted: Coq kernel, extraction, OCaml driver, Rust harness, public accessor API (ref_count). Free lists, chunked slot allocation and the timing of the background collector are not modelled: their effect is observed at quiescence (snapshots are taken under the exclusive manager lock). Terminal reference counts are not readable through the public API: the lifted terminal table carries the counts the invariant prescribes (handles + parent edges); a wrong stored count shows as a terminal that survives or vanishes against the model at the next gc(). The slot order of the terminal manager's hash table (visiting order of gc and of the iterator, hence the order of the free chain) is not fixed by the model: theorems hold for every order; the overflow guard of retain and memory orderings are not modelled. TDD: the model's collection (gc_model) restricts the node map and does not maintain counters (C05_tdd_example shows the stale count the audit notices); the counters of the real manager after gc() are audited on the lifted snapshot.",
 }
+# package ALLOC (slot allocator of the index-based manager): coq/Mgr/Alloc*.v, theorems C05_alloc_*, stage checks/alloccommon.py
+META["technique"] += "; slot allocator of the index-based manager (package ALLOC; the state anchor 'free lists / allocated'): Rocq proofs over an executable interleaving model (coq/Mgr/Alloc.v) of the shared and thread-local store state, the next links in the slot array and the node count bookkeeping, for every schedule of any number of threads; the allocator events logged by the cfg(oxidd_verif) hooks of /repo are replayed on the extracted model (ocaml/alloc_main.ml)"
+META["level_text"] += " Slot allocator (package ALLOC, C05_alloc_*, 18 theorems; out-of-memory theorems under C14_alloc_*): in every state reachable under ANY interleaving of the threads' prepare_local_state / guard drop / add_node / free_slot / collector-epilogue actions the live slots, the slots of the shared free lists, of the threads' local lists, of the threads' pre-allocated ranges and the never-allocated rest of the slot array are pairwise disjoint, duplicate-free and together exactly the slot IDs TERMINALS..TERMINALS+capacity (partition; every stored list head heads a well-formed list: chains_ok); a slot handed out by add_node was in exactly one list / range (the head of the list resp. first slot of the range that belongs to the path taken: handout_source), held no node and holds one afterwards (handout_safe); a slot that holds a node is never handed out again until it is freed, under every schedule (no_double_handout); #live + #free = capacity (free_count); at quiescence every slot without a node is reachable from the shared state (quiescent_no_leak) and the shared node count is exact (quiescent_count); the capacity probe: when no other thread holds slots a thread creates exactly capacity - #live nodes before OutOfMemory - after 'drop all + gc' every slot can be allocated again (capacity_probe); shared node count + the threads' deltas = #live (count_exact), the number compared with the high-water mark is #live minus the other threads' pending deltas (trigger_count); non-vacuity with 2-3 threads, chunk size 2, capacity 6 through every action and path (example); the seeded variants C01e (no_reset_refuted), C05c (tail_zero_refuted), C07b (no_prep_reset_refuted) and the count drift of the hand-over (ho_drift_refuted, fixed in /repo eed63c8) violate these on computed schedules. Tie: see checks/alloccommon.py: the logged allocator events of sequential, parallel, nested and multi-chunk cases are replayed on the extracted model; a slot handed out while it holds a node, a double free, an ID outside the slot array, a shared node count (also approx_num_inner_nodes) that differs from the number of handed-out slots when no thread has a pending delta = violation."
+META["level_note"] += " Slot allocator (package ALLOC): the model covers the slot array's free / node / uninitialised states and the counters, not the contents of nodes, integer overflow or memory ordering; see checks/C14.py level_note and notes/ALLOC.md."
+
 ALLOWED_AXIOMS = ()
 
 
@@ -140,15 +146,19 @@ def run(ctx):
     with _c05s_driver():
         ok_s, bad_s = ddcommon.run_dd(ctx, ["C05"], boolc, rule="", allowed_axioms=ALLOWED_AXIOMS, drv_args=["--c05s"],
                                       write_ev=False, debug_cases=None, sig_extra="gc-model")
+    # package ALLOC: the slot allocator stage (hooks build, event replay on the extracted model coq/Mgr/Alloc.v)
+    alloc_cov = alloccommon.run_stage(ctx)
     ddcommon.run_dd(
         ctx, ["C05"], cases, proofs=False,
-        extra_cov={"gc_model_cases_ok": ok_s, "gc_model_cases_bad": len(bad_s)},
+        extra_cov={"gc_model_cases_ok": ok_s, "gc_model_cases_bad": len(bad_s), "alloc_stage": alloc_cov, "alloc_stage_rule": alloccommon.RULE},
         rule="MTBDD terminals: histories over I64 and F64 terminals with a snapshot after every op (model invariant on every lifted snapshot; every gc() and constant() replayed on the extracted terminal-manager model); managers with 3..12 terminal slots framed by the terminal capacity probe, constants re-created right after collections, gc before every op in a fifth of them; large managers (2-3 allocation chunks; thorough 2-5): sessions that create up to 1200 nodes, drop them and collect inside one manager session, then a capacity probe that fills the store completely; MTBDD histories (arithmetic, ite, restrict, constants; gc; final drop all + gc: no inner node and no terminal left, after every gc no unreferenced terminal survives); per kind (bdd, bcdd, zbdd): random histories (apply, quantification, substitution, clone, drop, drop on another thread, gc, add_vars, set_var_order) with a snapshot and the reference-count audit after every op and a final 'drop all; gc; snapshot'; small-capacity managers (120..500 nodes, automatic collection at the high-water mark, failing operations) framed by the capacity probe; tdd: 36 (thorough 300) random histories (constants, variables, not, 8 connectives, ite, cofactors, clone, drop, drop on another thread, gc, add_vars, set_var_order; 1 or 4 workers) with the generic audit AND the ternary audit td_rc_b after every op, no unreferenced node after gc, final 'drop all; gc; snapshot' = empty store; 24 (thorough 200) stores of 6..200 nodes framed by the ternary capacity probe T3FILL (single-node functions, all alive, until out-of-memory: every slot in use; per variable the 12 nodes with terminal children that a connective makes of x and the constant u, then nodes x0 op g at level 0), failing operations in between. non-trivial = case with >= 3 ops",
         allowed_axioms=ALLOWED_AXIOMS)
 
 
 def replay(ctx, path):
     import json
+    if json.load(open(path)).get("driver") == "alloc":
+        return alloccommon.replay(ctx, json.load(open(path)))
     if "--c05s" in json.load(open(path)).get("drv_args", []):
         with _c05s_driver():
             ddcommon.replay_dd(ctx, path)
